@@ -495,7 +495,7 @@ func c05Smooth(c *Ctx) {
 	req, maxWait := ev.Param(fn, "requestedPermits"), ev.Param(fn, "maxWaitTime")
 	s0 := ev.NewState()
 	next0 := ev.LoadField(s0, s, "nextFreePermitTime")
-	interval := ev.LoadField(s0, s, "config", "interval")
+	interval := statsConfigField(ev, s0, s, "interval")
 	if next0 == nil || interval == nil || req == nil || maxWait == nil {
 		c.Unresolved(name, "fields nextFreePermitTime / interval or parameters not found")
 		return
@@ -611,7 +611,7 @@ func c05Bursty(c *Ctx) {
 	req := ev.Param(fn, "requestedPermits")
 	s0 := ev.NewState()
 	avail0, cur0 := ev.LoadField(s0, s, "availablePermits"), ev.LoadField(s0, s, "currentPeriod")
-	P, period := ev.LoadField(s0, s, "config", "periodPermits"), ev.LoadField(s0, s, "config", "period")
+	P, period := statsConfigField(ev, s0, s, "periodPermits"), statsConfigField(ev, s0, s, "period")
 	if avail0 == nil || cur0 == nil || P == nil || period == nil || req == nil {
 		c.Unresolved(name, "fields availablePermits / currentPeriod / periodPermits / period not found")
 		return
@@ -746,7 +746,18 @@ func c05Builders(c *Ctx) {
 			r := p.Rets[0]
 			st := ev.LoadField(p.State, r, "stats")
 			smooth := p.State.Facts.Truth(ts, ts.Cmp("!=", interval, ts.LinConst(0, interval.Typ)))
-			if p.Exit != ExitReturn || r.Op != "alloc" || st == nil || st.Op != "alloc" || ev.LoadField(p.State, r, "config") != cfg || ev.LoadField(p.State, st, "config") != cfg {
+			// the stats work on the builder's configuration: through the configuration itself, or through their own copies of
+			// the values they use (which nothing writes afterwards: immutable-config)
+			overCfg := st != nil && ev.LoadField(p.State, st, "config") == cfg
+			if st != nil && !overCfg && st.Op == "alloc" {
+				s0 := ev.NewState()
+				if smooth == triT {
+					overCfg = ev.LoadField(p.State, st, "interval") == ev.LoadField(s0, cfg, "interval")
+				} else if smooth == triF {
+					overCfg = ev.LoadField(p.State, st, "periodPermits") == ev.LoadField(s0, cfg, "periodPermits") && ev.LoadField(p.State, st, "period") == ev.LoadField(s0, cfg, "period")
+				}
+			}
+			if p.Exit != ExitReturn || r.Op != "alloc" || st == nil || st.Op != "alloc" || ev.LoadField(p.State, r, "config") != cfg || !overCfg {
 				ok = false
 				c.Fail(c.fn(fn), c.P.FuncPos(fn), "Build must return a fresh limiter with fresh stats over the builder's configuration", pathTrace(ev, p))
 				continue
@@ -1352,4 +1363,19 @@ func flatDelegation(c *Ctx, name string) bool {
 		}
 	}
 	return true
+}
+
+// statsConfigField: a configuration value the limiter's stats object works with: read through the configuration it
+// holds (s.config.f) or, when the stats keep their own copy made at Build time, from the stats themselves (s.f).
+func statsConfigField(ev *Evaluator, st *State, s *T, f string) *T {
+	if n := namedOfPtr(s.Typ); n != nil {
+		if str, ok := n.Underlying().(*types.Struct); ok {
+			for i := 0; i < str.NumFields(); i++ {
+				if fn := namedOfPtr(str.Field(i).Type()); fn != nil && typeCanonName(fn.Obj()) == "config" {
+					return ev.LoadField(st, s, "config", f)
+				}
+			}
+		}
+	}
+	return ev.LoadField(st, s, f)
 }
